@@ -42,6 +42,7 @@ ASSUMPTIONS = [
 
 COMPOSITE = {"MultiStart", "Augmented_Lagrangian_order_0", "Augmented_Lagrangian_order_1", "MNBI"}
 LINEAR_ONLY = {"INTERIOR_POINT", "DUAL_SIMPLEX", "Scipy_MILP"}
+KKT_ALGOS = {"SLSQP", "L-BFGS-B", "TNC", "NLOPT_SLSQP", "NLOPT_MMA", "NLOPT_BFGS"}
 # OT_SOBOL_INDICES, MorrisDOE, OATDOE need a dedicated setup. PYDOE_CCDESIGN generates star points outside the
 # bounds of the design space (a C14 matter); when such a point is the best one, execute raises while recording
 # the optimum as current value - outside the clauses of C03, see DESIGN.md 10.5
@@ -311,6 +312,10 @@ def run_driver(ctx, focus):
             settings.update(ftol_rel=0.0, ftol_abs=0.0, xtol_rel=0.0, xtol_abs=0.0)
         if t.flag(0.3, "max_time"):
             settings["max_time"] = t.pick([5.0, 0.5, 7200.0], "max_time_value")
+        if lib_name in KKT_ALGOS and cfg["user_jac"] and settings["store_jacobian"] and t.flag(0.3, "kkt_tolerances"):
+            # the KKT residual criterion (gradient-based wrappers) as a further termination criterion
+            settings["kkt_tol_abs"] = t.pick([1e-9, 1e-2, 1.0], "kkt_tol_abs")
+            settings["kkt_tol_rel"] = t.pick([1e-9, 1e-2], "kkt_tol_rel")
         if lib_name in ("DIFFERENTIAL_EVOLUTION", "DUAL_ANNEALING"):
             settings["seed"] = 1 + t.choice(10, "algo_seed")
         if lib_name == "MultiStart":
@@ -554,6 +559,8 @@ def check_execution(ctx, cfg, sig, e, problem, tracked, result, exc, n_new, allo
         ctx.probe("stopped_by_nan")
     elif "closer than" in msg:
         ctx.probe("stopped_by_tolerance")
+    elif "KKT" in msg:
+        ctx.probe("stopped_by_kkt")
     elif result is not None:
         ctx.probe("stopped_by_algorithm")
 
